@@ -210,6 +210,57 @@ def two_hard_cases(draw, tier):
             "rng": draw(st.integers(0, 9999)), "at_most_one": True}
 
 
+@st.composite
+def reuse_cases(draw, tier):
+    """ONE ParCons instance serves several datasets; every result is examined AFTER all the runs"""
+    runs = []
+    for _ in range(draw(st.sampled_from([2, 2, 3]))):
+        if draw(st.booleans()):
+            c = draw(two_hard_cases(tier))
+            runs.append({"dataset": c["dataset"], "scheme": c["scheme"]})
+        else:
+            runs.append({"dataset": draw(gen.datasets(max_n=6, max_m=5, shapes=SHAPES)), "scheme": draw(schemes())})
+    return {"runs": runs, "aux": draw(st.sampled_from(AUX)), "bound": draw(st.sampled_from([0, 2, 3, 80])),
+            "rng": draw(st.integers(0, 9999))}
+
+
+def check_reuse(case, ctx):
+    rec = configs.Recorder(make_aux(case["aux"]))
+    results = []
+    with configs.solver_env("absent"):
+        alg = ParCons(auxiliary_algorithm=rec, bound_for_exact=case["bound"])
+        for k, r in enumerate(case["runs"]):
+            d, s = lib.mk_dataset(r["dataset"]["rankings"]), lib.mk_scheme(r["scheme"])
+            before = len(rec.calls)
+            random.seed(case["rng"] + k)
+            st_, val = lib.call(alg.compute_consensus_rankings, d, s, True, allowed=configs.REFUSALS)
+            results.append((st_, val, d, s, len(rec.calls) - before, r))
+    answered = [x for x in results if x[0] == "ok"]
+    delegated = [x[4] > 0 for x in answered]
+    ctx.stats.case(case, len(answered) >= 2 and len(set(delegated)) == 2,
+                   ["answered:%d" % len(answered), "mixed_flags" if len(set(delegated)) == 2 else "same_flags"])
+    for st_, val, d, s, ncalls, r in answered:
+        rankings, scheme = r["dataset"]["rankings"], r["scheme"]
+        models = well_formed(val, rankings, True, "ParCons (reused instance)")
+        flag = val.necessarily_optimal
+        if flag is not (ncalls == 0):
+            raise Violation("ParCons instance reused for %d datasets: the consensus of dataset %s has "
+                            "necessarily_optimal=%r although the auxiliary algorithm was called %d time(s) for it" % (
+                                len(case["runs"]), rankings, flag, ncalls))
+        part = lib.must(OrderedPartition.parcons_partition, d, s)
+        groups, _ = model_partition(part.partition, "ParCons partition")
+        wgroups, _ = model_partition(val.features.get(lib.ConsensusFeature.WEAK_PARTITIONING) or [],
+                                     "reported weak partitioning")
+        if [frozenset(g) for g in wgroups] != [frozenset(g) for g in groups]:
+            raise Violation("ParCons instance reused: the consensus of dataset %s reports the weak partitioning %s, "
+                            "its partition is %s" % (rankings, wgroups, groups))
+        if flag:
+            inst = oracle.Instance(rankings, scheme)
+            if not same_value(inst.score(models[0]), inst.optimum(), scheme):
+                raise Violation("ParCons instance reused: %s flagged necessarily optimal with score %s, optimum %s" % (
+                    models[0], inst.score(models[0]), inst.optimum()))
+
+
 def any_cases(tier):
     return alg_cases(tier, shapes=SHAPES, schemes=schemes())
 
@@ -238,4 +289,5 @@ def subchecks():
     return [HypSub("partition", partition_cases, check_partition, 12000, 120000),
             HypSub("parcons_grid", grid_cases, check_grid, 8000, 80000),
             HypSub("parcons_mixed_delegation", two_hard_cases, check_grid, 3000, 40000),
+            HypSub("instance_reuse", reuse_cases, check_reuse, 800, 12000),
             HypSub("flag_any_algorithm", any_cases, check_flag_any, 6000, 60000)]
